@@ -317,6 +317,8 @@ def profile_for(pid, tier):
         P["ops"].update({"importance": 6, "update": 6})
         P["perts"].update({"enc:mask-true": 5, "enc:mask-true-traced": 6, "enc:mask-false": 6})
         P["pert_rate"] = 0.9
+        P["argchange"] = 0.7
+        G["kinds"].update({"vmap": 5, "scan": 4})
     elif pid == "C08":
         P["perts"].update({"tag:unknown": 10})
         P["ops"].update({"update": 8, "regenerate": 4, "empty_edit": 3})
